@@ -33,6 +33,12 @@ theorem C10_order_facts :
     Fc.validateBeforeDispatch = true ∧ Fc.preHelloOnlyHello = true ∧ Fc.binaryFrameAnsweredInvalidFormat = true ∧
     Fc.readLimitIsMaxMessageSize = true ∧ Fc.messageCounterLabelFromFixedSet = true ∧ Fc.maxMessageSize = 65536 := by decide
 
+/-- Every raw JSON member of a client message type that is sent on to other
+sessions is passed to `json.Valid` by its `CheckValid` (the auth `params` only go
+into the request to the Nextcloud backend, whose serialisation checks them). -/
+theorem C10_raw_members_checked :
+    rawMembers.all (fun r => rawValidated.contains r || r == ("HelloClientMessageAuth", "Params")) = true := by decide
+
 /-! ## 1. No crash -/
 
 theorem handlerFor_cases (t : String) :
@@ -175,7 +181,9 @@ theorem internalSwitch_no_crash (st : St) (s : Sess) (i : Internal) (http : Opti
   · obtain ⟨a, ha⟩ := Option.isSome_iff_exists.mp (internal_add hi h1)
     rw [if_pos h1, ha]
     simp only []
-    split <;> simp
+    split
+    · simp
+    · split <;> simp
   rw [if_neg h1]
   by_cases h2 : i.itype = "updatesession"
   · obtain ⟨a, ha⟩ := Option.isSome_iff_exists.mp (internal_upd hi h2)
@@ -420,44 +428,44 @@ theorem route_by (s : Sess) (kind : String) (rc : Recipient) (hv : Bool) (k : St
   repeat' split at hk
   all_goals simp_all [Sess.inBy]
 
-theorem modelMessage_by (st : St) (s : Sess) (m : ClientMessage) (o : Obs) (next : St) (ht : m.mtype = "message")
-    (h : modelMessage st s m = .ok o next) :
+theorem modelMessage_by (st : St) (s : Sess) (m : ClientMessage) (o : Obs) (next : St) (hv : checkValid Fc m = .ok)
+    (ht : m.mtype = "message") (h : modelMessage st s m = .ok o next) :
     ∀ k, k ∈ o.bMust ++ o.bMay → k ∈ addrSession st s m := by
   intro k hk
+  obtain ⟨mm, hr, hmv⟩ := valid_message hv ht
+  have hdv := message_data_valid hmv
   unfold addrSession
   simp only [ht, if_true]
   unfold modelMessage at h
-  cases hr : m.message with
-  | none => simp [hr] at h
-  | some mm =>
-    rw [hr] at h
-    simp only [] at h ⊢
-    repeat' split at h
-    all_goals (first | (cases h; done) | skip)
-    all_goals (injection h with ho hn; subst ho)
-    all_goals (first
-      | (simp [errObs] at hk; done)
-      | (have := route_by s "message" mm.recipient _ k (by simpa using hk); simp [this.1, this.2]; done)
-      | (simp [mcuObs, namesBystander] at hk ⊢; simp_all; done))
+  rw [hr] at h
+  simp only [hdv, fwdKind, if_true] at h ⊢
+  simp only [hr]
+  repeat' split at h
+  all_goals (first | (cases h; done) | skip)
+  all_goals (injection h with ho hn; subst ho)
+  all_goals (first
+    | (simp [errObs] at hk; done)
+    | (have := route_by s "message" mm.recipient _ k (by simpa using hk); simp [this.1, this.2]; done)
+    | (simp [mcuObs, namesBystander] at hk ⊢; simp_all; done))
 
-theorem modelControl_by (st : St) (s : Sess) (m : ClientMessage) (o : Obs) (next : St) (ht : m.mtype = "control")
-    (h : modelControl st s m = .ok o next) :
+theorem modelControl_by (st : St) (s : Sess) (m : ClientMessage) (o : Obs) (next : St) (hv : checkValid Fc m = .ok)
+    (ht : m.mtype = "control") (h : modelControl st s m = .ok o next) :
     ∀ k, k ∈ o.bMust ++ o.bMay → k ∈ addrSession st s m := by
   intro k hk
+  obtain ⟨mm, hr, hmv⟩ := valid_control hv ht
+  have hdv := control_data_valid hmv
   unfold addrSession
   simp only [ht, String.reduceEq, if_false, if_true]
   unfold modelControl at h
-  cases hr : m.control with
-  | none => simp [hr] at h
-  | some mm =>
-    rw [hr] at h
-    simp only [] at h ⊢
-    repeat' split at h
-    all_goals (first | (cases h; done) | skip)
-    all_goals (injection h with ho hn; subst ho)
-    all_goals (first
-      | (simp at hk; done)
-      | (have := route_by s "control" mm.recipient _ k (by simpa using hk); simp [this.1, this.2]; done))
+  rw [hr] at h
+  simp only [hdv, fwdKind, if_true] at h ⊢
+  simp only [hr]
+  repeat' split at h
+  all_goals (first | (cases h; done) | skip)
+  all_goals (injection h with ho hn; subst ho)
+  all_goals (first
+    | (simp at hk; done)
+    | (have := route_by s "control" mm.recipient _ k (by simpa using hk); simp [this.1, this.2]; done))
 
 theorem internalSwitch_by (st : St) (s : Sess) (i : Internal) (http : Option String) (o : Obs) (next : St)
     (hs : s.internal = true) (h : internalSwitch st s i http = .ok o next) :
@@ -503,14 +511,17 @@ theorem modelInternal_by (st : St) (s : Sess) (m : ClientMessage) (o : Obs) (nex
       simp only [hf, Bool.not_false, if_true] at h
       injection h with ho hn; subst ho; simp at hk
 
-theorem modelTransient_by (st : St) (s : Sess) (m : ClientMessage) (o : Obs) (next : St) (ht : m.mtype = "transient")
-    (h : modelTransient st s m = .ok o next) :
+theorem modelTransient_by (st : St) (s : Sess) (m : ClientMessage) (o : Obs) (next : St) (hv : checkValid Fc m = .ok)
+    (ht : m.mtype = "transient") (h : modelTransient st s m = .ok o next) :
     ∀ k, k ∈ o.bMust ++ o.bMay → k ∈ addrSession st s m := by
   intro k hk
+  obtain ⟨t, hr, htv⟩ := valid_transient hv ht
+  have hvv := transient_value_valid htv
   unfold addrSession
   simp only [ht, String.reduceEq, if_false, if_true]
   unfold modelTransient at h
-  simp only [] at h
+  rw [hr] at h
+  simp only [hvv, fwdKind, if_true] at h
   repeat' split at h
   all_goals (first | (cases h; done) | skip)
   all_goals (injection h with ho hn; subst ho)
@@ -544,17 +555,17 @@ theorem modelBye_by (st : St) (s : Sess) (m : ClientMessage) (o : Obs) (next : S
       all_goals simp_all
     · simp at hk
 
-theorem dispatchSession_by (st : St) (s : Sess) (m : ClientMessage) (o : Obs) (next : St)
+theorem dispatchSession_by (st : St) (s : Sess) (m : ClientMessage) (o : Obs) (next : St) (hv : checkValid Fc m = .ok)
     (h : dispatchSession Fc st s m = .ok o next) :
     ∀ k, k ∈ o.bMust ++ o.bMay → k ∈ addrSession st s m := by
   unfold dispatchSession at h
   simp only [] at h
   rcases handlerFor_cases m.mtype with ⟨ht, hh⟩ | ⟨ht, hh⟩ | ⟨ht, hh⟩ | ⟨ht, hh⟩ | ⟨ht, hh⟩ | ⟨ht, hh⟩ | hh
   · rw [hh] at h; simp only [if_true] at h; exact modelRoom_by _ _ _ _ _ ht h
-  · rw [hh] at h; simp only [String.reduceEq, if_false, if_true] at h; exact modelMessage_by _ _ _ _ _ ht h
-  · rw [hh] at h; simp only [String.reduceEq, if_false, if_true] at h; exact modelControl_by _ _ _ _ _ ht h
+  · rw [hh] at h; simp only [String.reduceEq, if_false, if_true] at h; exact modelMessage_by _ _ _ _ _ hv ht h
+  · rw [hh] at h; simp only [String.reduceEq, if_false, if_true] at h; exact modelControl_by _ _ _ _ _ hv ht h
   · rw [hh] at h; simp only [String.reduceEq, if_false, if_true] at h; exact modelInternal_by _ _ _ _ _ ht h
-  · rw [hh] at h; simp only [String.reduceEq, if_false, if_true] at h; exact modelTransient_by _ _ _ _ _ ht h
+  · rw [hh] at h; simp only [String.reduceEq, if_false, if_true] at h; exact modelTransient_by _ _ _ _ _ hv ht h
   · rw [hh] at h; simp only [String.reduceEq, if_false, if_true] at h; exact modelBye_by _ _ _ _ _ ht h
   · rw [hh] at h; simp only [String.reduceEq, if_false, if_true] at h
     injection h with ho hn; subst ho; intro k hk; simp at hk
@@ -680,7 +691,7 @@ theorem C10_bystanders (st : St) (f : Frame) (o : Obs) (next : St) (h : processF
             · rename_i hfed
               have := modelProxy_by _ _ _ _ hx
               simp [this.1, this.2] at hk
-            · exact dispatchSession_by _ _ _ _ _ hx k hk
+            · exact dispatchSession_by _ _ _ _ _ hv hx k hk
 
 /-- A plain `message` (no media server involved) whose recipient names the
 bystander's session or user, or the room the sender shares with it, *is*
@@ -693,6 +704,10 @@ theorem C10_addressed_message_delivered (st : St) (s : Sess) (m : ClientMessage)
   have hvb : Fc.validateBeforeDispatch = true := by decide
   have hlb : Fc.messageCounterLabelFromFixedSet = true := by decide
   have hno : ¬ (Fc.readLimitIsMaxMessageSize = true ∧ size > Fc.maxMessageSize) := by intro h; omega
+  have hdv : mm.dataValid = true := by
+    obtain ⟨mm', hm', hmv⟩ := valid_message hv ht
+    rw [hmm] at hm'; injection hm' with hm'; subst hm'
+    exact message_data_valid hmv
   have hroute : (route s "message" mm.recipient (!st.world.virt.isEmpty)).bMust = ["message"] := by
     unfold namesBystander at hn
     unfold route
@@ -717,13 +732,25 @@ theorem C10_addressed_message_delivered (st : St) (s : Sess) (m : ClientMessage)
     have hh : handlerFor Fc "message" = "processMessageMsg" := by decide
     simp only [ht, hh, String.reduceEq, if_false, if_true]
     unfold modelMessage
-    simp only [hmm, hmcu, Bool.false_eq_true, false_and, if_false]
+    simp only [hmm, hmcu, Bool.false_eq_true, false_and, if_false, hdv, fwdKind, if_true]
   unfold processFrame
   rw [hc]
   simp only [Bool.false_eq_true, false_and, if_false]
   rw [if_neg hno, hproc]
   obtain ⟨h, hh⟩ := withHttp_ok st (withAmbient s (route s "message" mm.recipient (!st.world.virt.isEmpty))) st
   exact ⟨_, hh, by simp [hroute]⟩
+
+/-- **C10_forwarded_raw_valid.** What a valid `message`, `control` or `transient`
+hands on to other sessions verbatim (the model's `fwdKind`) is valid JSON: the
+hub never emits a frame that is not well-formed because of client input. -/
+theorem C10_forwarded_raw_valid (m : ClientMessage) (hv : checkValid Fc m = .ok) :
+    (m.mtype = "message" → ∃ mm, m.message = some mm ∧ mm.dataValid = true) ∧
+    (m.mtype = "control" → ∃ mm, m.control = some mm ∧ mm.dataValid = true) ∧
+    (m.mtype = "transient" → ∃ t, m.transient = some t ∧ t.valueValid = true) := by
+  refine ⟨fun ht => ?_, fun ht => ?_, fun ht => ?_⟩
+  · obtain ⟨mm, h1, h2⟩ := valid_message hv ht; exact ⟨mm, h1, message_data_valid h2⟩
+  · obtain ⟨mm, h1, h2⟩ := valid_control hv ht; exact ⟨mm, h1, control_data_valid h2⟩
+  · obtain ⟨t, h1, h2⟩ := valid_transient hv ht; exact ⟨t, h1, transient_value_valid h2⟩
 
 /-! ## 4. Non-vacuity and sensitivity to the facts -/
 
@@ -740,7 +767,8 @@ def noData : DataShape := { jsonOk := false, dtype := "", roomType := .empty, sd
 def msgToRoom : ClientMessage :=
   { id := .other, mtype := "message", typeUtf8 := true, hello := none, bye := none, room := none, control := none,
     internal := none, transient := none,
-    message := some { recipient := { rtype := "room", sid := .empty, uid := .empty }, dataNonEmpty := true, data := noData } }
+    message := some { recipient := { rtype := "room", sid := .empty, uid := .empty }, dataNonEmpty := true, dataValid := true,
+                      data := noData } }
 
 def roomWithoutRoom : ClientMessage :=
   { id := .other, mtype := "room", typeUtf8 := true, hello := none, bye := none, room := none, message := none,
@@ -790,6 +818,22 @@ theorem C10_total_needs_fixed_label :
     processFrame factsBeforeLabelFix St.init (frameOf { roomWithoutRoom with mtype := "�", typeUtf8 := false }) =
       .crash "processMessage: statsMessagesTotal.WithLabelValues(message.Type) with a type that is not valid UTF-8" := by
   decide
+
+/-- The facts of the tree before 6e62647: `CheckValid` does not look into raw members. -/
+def factsBeforeRawFix : Facts := { Fc with rawValidated := [] }
+
+def msgToBystanderInvalidData : ClientMessage :=
+  { msgToRoom with
+    message := some { recipient := { rtype := "session", sid := .by, uid := .empty }, dataNonEmpty := true, dataValid := false,
+                      data := noData } }
+
+/-- Without that check a `message` whose data is e.g. `01` passes validation and
+the bystander receives a frame that is not valid JSON. -/
+theorem C10_wellformed_needs_raw_check :
+    processFrame factsBeforeRawFix (stOf userInRoom false) (frameOf msgToBystanderInvalidData) =
+      .ok { sMay := ambient, bMust := ["malformed"] } (stOf userInRoom false) ∧
+    processFrame Fc (stOf userInRoom false) (frameOf msgToBystanderInvalidData) =
+      .ok { sMust := ["error:invalid_format"], sMay := ambient } (stOf userInRoom false) := by decide
 
 /-- Dropping one nil guard from `ClientMessage.CheckValid` (`case "room"`) makes
 `{"type":"room"}` panic inside `CheckValid` itself. -/
